@@ -33,6 +33,7 @@ MAX_DEATHS = 6
 
 sys.path.insert(0, VERIF)
 import gen  # noqa: E402
+import anchors  # noqa: E402
 
 
 def log(*a):
@@ -376,7 +377,17 @@ def check(pid, tier, seed):
 
     # 2. correspondence + property oracle on the implementation
     modes = ["debug", "release"]
-    problems = explore(pid, tier, seed, modes, stats) if ok or True else []
+    # source-derived drift signal: functions of the files this property is anchored in whose text changed since the model was
+    # last reconciled.  Never an alarm by itself; it widens the quick tier to the thorough scope.
+    drift = []
+    try:
+        pfiles = [json.loads(l) for l in open(os.path.join(VERIF, "properties.jsonl"))]
+        pfiles = next(p["anchors"]["files"] for p in pfiles if p["id"] == pid)
+        drift = anchors.drift_for(pfiles)
+    except Exception as e:                                     # the signal is advisory
+        notes.append("drift signal unavailable: %r" % (e,))
+    scope = "thorough" if (drift and tier == "quick") else tier
+    problems = explore(pid, scope, seed, modes, stats)
 
     prop_fail = [p for p in problems if p["kind"] == "property"]
     corr_fail = [p for p in problems if p["kind"] in ("correspondence", "build")]
@@ -438,7 +449,7 @@ def check(pid, tier, seed):
             "leanchecker": leanchecker,
             "evaluations": stats.get("evaluations", 0),
             "distinct_nontrivial": stats.get("distinct_nontrivial", 0),
-            "rule": gen.rule(pid, tier),
+            "rule": gen.rule(pid, scope),
             "samples": stats.get("samples", []),
             "traces_validated_against_impl": stats.get("evaluations", 0),
             "cases": stats.get("cases", 0),
@@ -446,6 +457,8 @@ def check(pid, tier, seed):
             "outcomes": stats.get("outcomes", {}),
             "modes": modes,
             "searched_for_failing_input": searched,
+            "drift": drift,
+            "generator_scope": scope,
             "exhaustive": gen.exhaustive(pid, tier),
             "partial": gen.partial(pid),
         },
